@@ -27,6 +27,7 @@ type ModItem struct {
 // SiteAssert is an assertion attached to a program point identified by source text.
 type SiteAssert struct {
 	Assume bool   // an assumed fact (trusted, listed in the evidence) rather than an obligation
+	Every  bool   // applies to every occurrence of the needle, zero occurrences included
 	Where  string // "after" | "before"
 	Needle string // substring of the source line
 	Clause Clause
@@ -257,7 +258,13 @@ func ParseFile(path, pkgPath string) (*File, error) {
 			if cur == nil {
 				return nil, fail(fmt.Errorf("assert outside func"))
 			}
-			// assert after "needle": expr
+			// assert [every] after "needle": expr — without `every` the anchor statement must exist (an assertion that
+			// finds no statement to attach to is reported); with it the clause applies to each occurrence, none included
+			every := false
+			if strings.HasPrefix(rest, "every ") {
+				every = true
+				rest = strings.TrimSpace(strings.TrimPrefix(rest, "every "))
+			}
 			f := strings.SplitN(rest, " ", 2)
 			if len(f) != 2 || (f[0] != "after" && f[0] != "before") {
 				return nil, fail(fmt.Errorf("assert: expected after|before"))
@@ -277,7 +284,7 @@ func ParseFile(path, pkgPath string) (*File, error) {
 			if err != nil {
 				return nil, fail(err)
 			}
-			cur.Asserts = append(cur.Asserts, SiteAssert{Assume: kw == "assume", Where: f[0], Needle: needle, Clause: c})
+			cur.Asserts = append(cur.Asserts, SiteAssert{Assume: kw == "assume", Every: every, Where: f[0], Needle: needle, Clause: c})
 		case "noninterference":
 			if cur == nil {
 				return nil, fail(fmt.Errorf("noninterference outside func"))
